@@ -26,6 +26,7 @@ def run(ctx):
     ctx.rule("R12.4", "in the scheduler's blocking path Lock::check precedes wait_lock")
     ctx.rule("R12.5", "recorded-graph walk: visited-set test first, own id inserted before recursing, recursion receives the extended set")
     ctx.rule("R12.6", "CyclicDependency maps to exit status 208")
+    ctx.rule("R12.7", "the shortest cycle (a target asking for itself) is refused by add_dep with CyclicDependency, not by an assertion")
 
     for m in ("try_lock", "wait_lock"):
         b = prog.one(r"state::Lock::" + m)
@@ -128,6 +129,8 @@ def run(ctx):
 
     dirt.visited_set(ctx, "R12.5")
 
+    self_dependency_rule(ctx, "R12.7")
+
     ec = prog.one(r"error::RedoErrorKind::exit_code")
     eba = BA.of(ec)
     ok = False
@@ -141,6 +144,38 @@ def run(ctx):
                 vals = [c.get("int") for (bb, c) in common.ret_const_assigns(ec) if bb in r]
                 ok = vals == [208]
     ctx.ob("R12.6", "exit_code|CyclicDependency=>208", ok, where=ec.span, detail="the CyclicDependency arm returns 208")
+
+
+def self_dependency_rule(ctx, rid):
+    prog = ctx.prog
+    ad = prog.one(r"state::File::add_dep")
+    ba = BA.of(ad)
+    found = None
+    for sw in sorted(ba.live):
+        bs = ba.bool_switch(sw)
+        if not bs:
+            continue
+        t_t, f_t, (kind, info) = bs
+        if kind == "binop" and info[1]["op"] in ("Eq", "Ne"):
+            a_id = common.reads_field(ad, {"k": "use", "op": info[1]["a"]}, "state::File.id")
+            b_id = common.reads_field(ad, {"k": "use", "op": info[1]["b"]}, "state::File.id")
+            if a_id and b_id:
+                eq_t = t_t if info[1]["op"] == "Eq" else f_t
+                found = (sw, eq_t)
+    if not ctx.ob(rid, "add_dep|self-id-test", found is not None, where=ad.span, detail="comparison of the target's id with the dependency's id located" if found else
+                  "add_dep does not compare the two ids: a self-dependency is recorded and the target waits on its own lock"):
+        return
+    sw, eq_t = found
+    errs = common.blocks_with_agg(ad, r"error::RedoErrorKind", "CyclicDependency")
+    panics = [i for i in ba.all_calls() if any(p.startswith("core::panicking::") for p in callee_paths(ad.blocks[i]["term"]))]
+    writes = ba.calls(r"state::ProcessTransaction::write")
+    p1 = ba.path([eq_t], panics, incl=True)
+    p2 = ba.path([eq_t], ba.returns(), avoid=frozenset(errs), incl=True)
+    p3 = ba.path([eq_t], writes, incl=True)
+    ok = p1 is None and p2 is None and p3 is None and bool(errs)
+    ctx.ob(rid, "add_dep|self-dependency=>CyclicDependency", ok, where=ctx.where(ad, sw),
+           detail="equal ids return CyclicDependency without recording the edge" if ok else
+           ("equal ids reach a panic: redo-ifchange aborts (exit 101) instead of reporting a cyclic dependency (208)" if p1 else "equal ids are not refused with CyclicDependency"))
 
 
 def _const_arg_known(b, a):
